@@ -26,6 +26,11 @@ Definition zopt_ok (ge le gt : option Z) (z : Z) : bool :=
 Definition trunc_dec (m e : Z) : Z :=
   if (0 <=? e)%Z then (m * 10 ^ e)%Z else Z.quot m (10 ^ (- e))%Z.
 
+(* a number with a fractional part is not coerced to an int (fix cb389b6; the translator probes every
+   non-strict int field with such a number on every run and fails closed if one truncates) *)
+Definition dec_integral (m e : Z) : bool :=
+  (0 <=? e)%Z || (Z.rem m (10 ^ (- e)) =? 0)%Z.
+
 Definition s_True : str := $"True".
 Definition s_False : str := $"False".
 
@@ -75,7 +80,7 @@ Section Parse.
         | JInt z => fin z
         | JBool b => if strict then reject else fin (if b then 1 else 0)%Z
         | JStr s => if strict then reject else match parse_int s with Some z => fin z | None => reject end
-        | JDec m e => if strict then reject else fin (trunc_dec m e)
+        | JDec m e => if strict then reject else if dec_integral m e then fin (trunc_dec m e) else reject
         | _ => reject
         end
       | KFloat gt =>
